@@ -20,6 +20,7 @@
   subscription would self-deadlock; teardowns of the model do not call back.
 -/
 import RoProofs.Kernel.Events
+import RoProofs.Kernel.Main2
 import RoProps.KernelTie
 namespace Ro.C03
 open Ro.Kernel
@@ -121,6 +122,21 @@ theorem kernel_raise_after_loop (mode : Mode) (destNil : Bool) (panicky : List F
     ∀ p ∈ fs, p ∈ (run Expected.progs (init mode destNil panicky scripts) sched).sh.ran :=
   raise_after_loop (kinv_reachable mode destNil panicky scripts sched) h hlog
 
+/-- C03 on the history: every `raised` event (the joined panic of an Unsubscribe) is preceded in the
+    log by the runs of all the finalizers it names; with `kernel_raise_after_loop` (at that moment the
+    raising thread's taken list is empty: everything it took has run) the raise follows every
+    finalizer run of that Unsubscribe -/
+theorem kernel_raiseLog (mode : Mode) (destNil : Bool) (panicky : List FinId) (scripts : List (List ApiCall))
+    (sched : List Tid) : raiseLog (run Expected.progs (init mode destNil panicky scripts) sched).sh.log = true :=
+  (xinv_reachable mode destNil panicky scripts sched).wr.raise
+
+/-- C03 on the history: no finalizer id occurs twice among the `finRun` events -/
+theorem kernel_finOnceLog (mode : Mode) (destNil : Bool) (panicky : List FinId) (scripts : List (List ApiCall))
+    (hd : DistinctIds scripts) (sched : List Tid) :
+    (finRuns (run Expected.progs (init mode destNil panicky scripts) sched).sh.log).Nodup := by
+  rw [kernel_finRuns_log]
+  exact List.nodup_iff_count.mpr (fun f => kernel_finalizer_at_most_once mode destNil panicky scripts hd sched f)
+
 /-! ### non-vacuity -/
 
 -- three finalizers stored (one panicking), a Complete racing two Unsubscribes, a late Add: all run
@@ -154,3 +170,5 @@ end Ro.C03
 #print axioms Ro.C03.kernel_add_after_done_not_stored
 #print axioms Ro.C03.kernel_runNow_holds_subMu
 #print axioms Ro.C03.kernel_raise_after_loop
+#print axioms Ro.C03.kernel_raiseLog
+#print axioms Ro.C03.kernel_finOnceLog
